@@ -62,6 +62,8 @@ type Env struct {
 	acctAddr   map[int]sdk.AccAddress
 	acctIDs    []int
 	lastDetail string
+	lastSnap   *State
+	Mon        MonState
 }
 
 func denomID(d string) int {
@@ -131,6 +133,7 @@ func NewEnv(t *testing.T, cfg Config) *Env {
 	app := allianceapp.Setup(t)
 	ctx := app.NewContext(true).WithBlockTime(StartTime).WithBlockHeight(10)
 	e := &Env{T: t, App: app, Ctx: ctx, acctAddr: map[int]sdk.AccAddress{}}
+	e.Mon.LastDeposit = map[int]*big.Int{}
 	e.ModAddr = authtypes.NewModuleAddress(types.ModuleName)
 	e.Msg = keeper.NewMsgServerImpl(app.AllianceKeeper)
 	e.acctAddr[AccModule] = e.ModAddr
